@@ -1,6 +1,7 @@
 package vc
 
 import (
+	"govc/internal/spec"
 	"fmt"
 	"go/constant"
 	"go/token"
@@ -94,6 +95,7 @@ func (fc *FnCtx) instr(in ssa.Instruction, st *State) {
 			c.Bindings = append(c.Bindings, bv)
 		}
 		fc.vals[x] = Val{Clo: c, GoT: x.Type()}
+		fc.closureRequires(x, fn, c, st, g, where)
 	case *ssa.MakeSlice:
 		if kindOf(x.Type()) == KStrList {
 			ln := fc.term(fc.val(x.Len))
@@ -860,4 +862,59 @@ func (fc *FnCtx) viewPointer(t types.Type) bool {
 	}
 	cn, ok := fc.P.canonStruct[st]
 	return ok && cn != fc.P.TypeStr(p.Elem(), nil)
+}
+
+// closureRequires: the part of a closure's precondition that speaks only of
+// its captured variables is an obligation of the function that creates the
+// closure (nobody else can establish it); the closure's callers owe the part
+// that mentions its parameters. Conjuncts that mix both stay assumptions of the
+// closure (listed in the evidence).
+func (fc *FnCtx) closureRequires(x *ssa.MakeClosure, fn *ssa.Function, c *Closure, st *State, g *smt.Term, where string) {
+	cs := fc.P.Contract[fc.P.FuncName(fn)]
+	if cs == nil || cs.Trusted || len(cs.Requires) == 0 {
+		return
+	}
+	free := map[string]Val{}
+	for i, fv := range fn.FreeVars {
+		if i < len(c.Bindings) {
+			free[fv.Name()] = c.Bindings[i]
+		}
+	}
+	params := map[string]bool{}
+	for _, n := range cs.Params {
+		params[n] = true
+	}
+	for _, p := range fn.Params {
+		params[p.Name()] = true
+	}
+	var conj func(e spec.Expr, out *[]spec.Expr)
+	conj = func(e spec.Expr, out *[]spec.Expr) {
+		if b, ok := e.(*spec.Binary); ok && b.Op == "&&" {
+			conj(b.X, out)
+			conj(b.Y, out)
+			return
+		}
+		*out = append(*out, e)
+	}
+	for _, r := range cs.Requires {
+		var parts []spec.Expr
+		conj(r.E, &parts)
+		for _, e := range parts {
+			usesFree, usesParam := false, false
+			walk(e, func(y spec.Expr) {
+				if id, ok := y.(*spec.Ident); ok {
+					if params[id.Name] {
+						usesParam = true
+					} else if _, ok := free[id.Name]; ok {
+						usesFree = true
+					}
+				}
+			})
+			if !usesFree || usesParam {
+				continue
+			}
+			ec := &evalCtx{fc: fc, vars: free, cur: st, old: st}
+			fc.oblige("closure-requires", fc.P.FuncName(fn), cs.Tags, g, ec.booleanOrUnprovable(e), where, e.String())
+		}
+	}
 }
